@@ -137,7 +137,27 @@ M = [
 ]
 
 
+CACHE = {}
+CACHE_PATH = None
+CACHE_LOCK = __import__("threading").Lock()
+
+
 def run_one(job):
+    """With --cache FILE every finished job is appended to FILE (JSON lines) and jobs already in
+    it are not run again: an interrupted run resumes, and rows of checks that did not change can
+    be carried over by keeping their lines."""
+    kind, payload = job
+    ident = json.dumps([kind, payload[0]] + ([os.path.relpath(payload[1], ROOT), payload[4]] if kind == "seed" else list(payload[1:4])))
+    if ident in CACHE:
+        return tuple(CACHE[ident])
+    res = _run_one(job)
+    if CACHE_PATH:
+        with CACHE_LOCK, open(CACHE_PATH, "a") as fh:
+            fh.write(json.dumps({"id": ident, "res": list(res)}) + "\n")
+    return res
+
+
+def _run_one(job):
     kind, payload = job
     if kind == "mut":
         prop, file, old, new, expect, note = payload
@@ -161,7 +181,15 @@ def main():
     ap = argparse.ArgumentParser()
     ap.add_argument("-j", type=int, default=3)
     ap.add_argument("--only")
+    ap.add_argument("--cache")
     args = ap.parse_args()
+    if args.cache:
+        global CACHE_PATH
+        CACHE_PATH = args.cache
+        if os.path.exists(args.cache):
+            for line in open(args.cache):
+                rec = json.loads(line)
+                CACHE[rec["id"]] = rec["res"]
     jobs = [("mut", m) for m in M if not args.only or m[0] == args.only]
     for meta_path in sorted(glob.glob(os.path.join(ROOT, "seeded", "*", "meta.json"))):
         meta = json.load(open(meta_path))
